@@ -1,4 +1,5 @@
 import GeomV.C05.TieGenS
+import GeomV.C05.ProofsRetry
 /-!
 # C05 — the regenerated streaming `Read` IS the hand-written streaming model, on every scripted reader
 
@@ -63,5 +64,22 @@ theorem C05_read_sequence_gen (fuel : Nat) (xs : List (OTree × BGeom)) (bs rest
   unfold genReadSeq
   rw [C05_stream_gen_exact]
   exact C05_read_sequence fuel xs bs rest s he hs ha
+
+end GeomV.C05
+
+namespace GeomV.C05
+open GeomV GeomV.C05.Stream GeomV.C05.Ogc
+
+/-- **C05_retry_gen**: `Stream.C05_retry` for the REGENERATED streaming `Read` (`C05_stream_gen_exact`). -/
+theorem C05_retry_gen (fuel : Nat) (t₁ : OTree) (g₁ : BGeom) (p q : Bytes) (t : OTree) (g : BGeom) (enc rest : Bytes)
+    (s : Script)
+    (he₁ : Encodable g₁) (hf₁ : g₁.depth + 1 < fuel) (hs₁ : serializeMixed t₁ g₁ = some (p ++ q)) (hq : q ≠ [])
+    (ha₁ : avail s = p)
+    (he : Encodable g) (hf : g.depth + 1 < fuel) (hs : serializeMixed t g = some enc)
+    (ha : avail (afterErr s) = enc ++ rest) :
+    Gen.readS scriptSrc fuel s = .error (short (firstErr s)) ∧
+    ∃ s', Gen.readS scriptSrc fuel (afterErr s) = .ok (g, s') ∧ avail s' = rest := by
+  rw [C05_stream_gen_exact]
+  exact C05_retry fuel t₁ g₁ p q t g enc rest s he₁ hf₁ hs₁ hq ha₁ he hf hs ha
 
 end GeomV.C05
